@@ -131,6 +131,7 @@ class Case:
             self.acc.violation('%s:%s' % (self.focus, key), msg, wit)
         else:
             self.acc.count('other_property_divergence_%s' % prop)
+            self.lost_to = prop
         self.stop = True
 
     # -- client operations ----------------------------------------------------------------------
@@ -568,6 +569,7 @@ class Case:
     def run(self):
         acc, rnd = self.acc, self.rnd
         self.errors_in_a_row = 0
+        nv0 = len(acc.violations)
         nsteps = TIER[self.tier]['steps']
         for c in shape_classes(self.ch):
             acc.count('shape_' + c)
@@ -586,9 +588,42 @@ class Case:
                 break
         if not self.stop:
             self.after_final_and_drain(k)
+        if self.stop and getattr(self, 'lost_to', None) and self.focus == 'C02' and len(acc.violations) == nv0:
+            self.free_run(k, nsteps + 6)
         acc.count('cases_run')
         if self.stop and not acc.violations:
             acc.count('cases_cut_short')
+
+    def free_run(self, k, upto):
+        """The run diverged from the reference model in a way that belongs to another property (wrong selection, a missing
+        or a wrong error...).  C02 does not need the model: 'whenever execute_once returns normally the configuration is legal'
+        is judged on the rest of the run as well, whatever happened before."""
+        acc, it, rnd = self.acc, self.it, self.rnd
+        acc.count('c02_model_free_continuations')
+        for j in range(k, upto):
+            if rnd.random() < 0.6:
+                self.next_uid += 1
+                it.queue(Event(rnd.choice(self.ch['events'] + ['zz']), u=self.next_uid))
+                self.history.append(('queue (model-free)', self.next_uid))
+            if rnd.random() < 0.4:
+                it.clock.time += rnd.choice(DT)
+            self.pr.stepno = j
+            self.history.append(('execute_once (model-free)', j))
+            try:
+                step = it.execute_once()
+            except Exception as e:      # noqa
+                self.history.append(('raised', type(e).__name__))
+                continue
+            acc.count('c02_model_free_steps')
+            cfg = list(it.configuration)
+            if it.final:
+                if cfg:
+                    return self.report('C02', 'final-not-empty', 'final but configuration %r' % cfg, step=j)
+                return
+            lg = legal(self.ch, cfg)
+            if lg is not True:
+                return self.report('C02', 'illegal-configuration', '%s: %r after %s (the run had diverged from the expected one '
+                                   'earlier, in a way that belongs to %s)' % (lg, cfg, step, self.lost_to), step=j)
 
     def after_final_and_drain(self, k):
         """Post-final continuation (C02) and drain (C05: nothing lost, nothing duplicated)."""
